@@ -12,6 +12,8 @@ with a flow chosen by the environment:
     'refuse'  the connect is refused                               (start raises -> __exit__ aborts)
     'early'   the caller raises after start(), before download()   (__exit__ aborts)
     'nodl'    the caller leaves the with block without download()  (recycle closes the unfinished connection)
+    'direct'  (proxy runs) pool.acquire() / pool.no_wait_release() called directly, no HTTP session
+    'poolctx' (proxy runs) with (yield from pool.session(host, port)) as connection
 Environment commands: ['start', c, k, flow], ['reply', c] (the server answers the pending request of c),
 ['kill', x] (the server closes idle connection x), ['cancel', c].
 Observation is done in a ConnectionPool subclass (acquire / no_wait_release / release wrapped) and in a subclass of
@@ -203,6 +205,17 @@ class SessRun(Run):
             if flow == 'refuse':
                 self.net.connect_errors.append(ConnectionRefusedError(errno.ECONNREFUSED, 'refused'))
             try:
+                if flow in ('direct', 'poolctx'):
+                    # the pool's own interface (acquire / release, session()) on whatever pool the application
+                    # installed - with --http-proxy that is the proxy pool
+                    if flow == 'direct':
+                        conn = yield from self.pool.acquire(host_of(k), 80)
+                        self.pool.no_wait_release(conn)
+                    else:
+                        with (yield from self.pool.session(host_of(k), 80)) as conn:
+                            if conn is None:
+                                raise Boom()
+                    raise Boom()           # (leaves through the common exit below)
                 with self.http.session() as session:
                     scheme = 'https' if k in self.tls_hosts else 'http'
                     yield from session.start(Request('%s://%s/' % (scheme, host_of(k))))
@@ -256,6 +269,8 @@ class SessRun(Run):
                 ep.send(b'HTTP/1.1 403 Forbidden\r\nContent-Length: 0\r\n\r\n')
             elif flow == 'tunnelcut':        # the proxy closes instead of answering the CONNECT
                 ep.close()
+            elif flow in ('direct', 'poolctx'):   # the proxy accepts the CONNECT (no body)
+                ep.send(b'HTTP/1.1 200 Connection established\r\n\r\n')
             else:
                 ep.send(b'HTTP/1.1 200 OK\r\nContent-Length: 2\r\n\r\nhi')
         elif k == 'kill':
@@ -308,7 +323,7 @@ class SessRun(Run):
 
 
 FLOWS = ('ok', 'cut', 'refuse', 'early', 'nodl')
-PROXY_FLOWS = FLOWS
+PROXY_FLOWS = FLOWS + ('direct', 'poolctx')
 
 
 class ProxySessRun(SessRun):
